@@ -282,9 +282,7 @@ Lemma remember_history_app e s t nick id o :
   remember_history e (app_out o s) t nick id = liftS o (remember_history e s t nick id).
 Proof.
   unfold remember_history. change (hist (rnd (app_out o s))) with (hist (rnd s)).
-  destruct (existsb (String.eqb t) (hist_tables e)).
-  - destruct (match nick with Some n => negb (nick_maps_to (hist (rnd s)) n t) | None => false end); reflexivity.
-  - destruct nick as [n|]; [destruct (existsb (String.eqb n) (hist_tables e))|]; reflexivity.
+  destruct (existsb (String.eqb t) (hist_tables e)); reflexivity.
 Qed.
 
 Lemma random_reference_app e to s o :
@@ -479,7 +477,7 @@ Qed.
 (* ------------------------------------------------------------------ (3) load after save *)
 
 (* recipes without random_reference keep no row history at all *)
-Definition rh0 : rh := mkRh [] [] [] [] [].
+Definition rh0 : rh := mkRh [] [] [] [] [] [].
 
 (* the shape of the state between two iterations (of a recipe without random_reference) *)
 Definition boundary (e : env) (s : st) : Prop :=
@@ -568,7 +566,7 @@ Proof.
       destruct (new_row_id_same s (t_table t) (t_nick t)) as (_ & _ & Hr). rewrite Hid in Hr. cbn [fst] in Hr.
       rewrite Hr. exact H0. }
     unfold remember_history in E0. rewrite He in E0. cbn [existsb] in E0.
-    destruct (t_nick t); injection E0 as <-; destruct (remember_deps_same (c_fields c) s4 (t_table t)) as (_ & _ & -> & _); exact H4.
+    injection E0 as <-; destruct (remember_deps_same (c_fields c) s4 (t_table t)) as (_ & _ & -> & _); exact H4.
   - destruct fs as [|[name d] fs]; [injection H as <- _; exact H0|].
     destruct (String.eqb name "id"); [discriminate|].
     dbind H as [s1 v]. eapply IH; [exact He|exact H|]. rewrite set_field_rnd. eapply IH; eassumption.
